@@ -116,9 +116,6 @@ def orderSafeQuirks : List Quirk :=
   [.df, .nonZeroID, .zeroID, .seqNumZero, .ackNumNonZero, .ackNumZero, .nonZeroURG, .urg, .push,
    .ownTimestampZero]
 
-/-- `total_header` as the call site passes it to the window classifier (IHL in words / 40). -/
-def codeHdrOf (v6 : Bool) (olen : Nat) : Nat := if v6 then 40 else 5 + olen / 4
-
 /-- The window field survives the extractor's re-classification for every conforming segment of
 the given IP version. -/
 def WindowReach (v6 : Bool) (s : TcpSig) : Prop :=
@@ -128,11 +125,11 @@ def WindowReach (v6 : Bool) (s : TcpSig) : Prop :=
   | .value w =>
     w = 0 ∨ .mss ∉ s.olayout ∨
     (onOpt s.mss False fun m =>
-      detectWin w m (codeHdrOf v6 s.olen) (s.olayout.contains .ts) (if v6 then .v6 else .v4) = .value w)
+      detectWin w m 0 (s.olayout.contains .ts) (if v6 then .v6 else .v4) = .value w)
   | .mtu n =>
     onOpt s.mss False fun m => .mss ∈ s.olayout ∧
       (n * (m + (if v6 then 60 else 40)) ≤ 65535 →
-       detectWin (n * (m + (if v6 then 60 else 40))) m (codeHdrOf v6 s.olen) (s.olayout.contains .ts)
+       detectWin (n * (m + (if v6 then 60 else 40))) m 0 (s.olayout.contains .ts)
         (if v6 then .v6 else .v4) = .mtu n)
   | .mod _ => False
 instance (v6 s) : Decidable (WindowReach v6 s) := by
